@@ -89,7 +89,7 @@ def register(claim, na):
           "Decides: R-INFL over all ordered collider class pairs for both Nesterov variants; R-DISPATCH (type codes and data "
           "slots); R-DTREE (13 region functions identical across the two files); R-TUPLEROLE (wrappers index the element named "
           "after the quantity, distance clamped at 0, iteration helpers drive the same loop); R-JOHNSON/R-EXHAUSTIVE for the "
-          "original GJK's final answer; R-MINK; R-LOOP. Does not decide the 1e-3 L accuracy nor behaviour with "
+          "original GJK's final answer; R-MINK; R-LOOP. SimplexInfo writes its three parallel containers (points / indices_polytope1 / indices_polytope2) together, same target row from one source row, in every method (R-PARALLEL), and select_vertex/line_segment/face refill dot_product_table[r,c] from [max(P_r,P_c), min(P_r,P_c)] of the old table for every refill statement (R-DOTTABLE, symbolic). Does not decide the 1e-3 L accuracy nor behaviour with "
           "use_nesterov_acceleration=True beyond the loop cap.", "DESIGN.md §4 C09")
     claim("C18", AST + ": bit-mask remap tables by constant evaluation, mask/point agreement, plane/face agreement, cofactor "
                        "column <-> vertex subset table derived from the stores, exhaustive sub-simplex enumeration",
